@@ -146,7 +146,9 @@ func fixSize(entries []raftpb.Entry, maxSize uint64) []raftpb.Entry {
 	for i := 0; i < len(entries); i++ {
 		size += entries[i].SizeUpperLimit()
 		if uint64(size) >= maxSize {
-			return entries[:i]
+			// maxSize is only a hint, at least one entry must be returned otherwise
+			// the reader of a non-empty range would never make any progress.
+			return entries[:max(i, 1)]
 		}
 	}
 	return entries
